@@ -66,7 +66,8 @@ def check_type_renderer(fx, rep, rule, name, remap_path, prim_path):
         return
     rep.fn(p)
     b = fx.bodies[p]
-    sy = S.Sym(fx, opaque=lambda q: q in (remap_path, prim_path))
+    # (a shared generic helper taking the class lookup as a closure is inlined, loop included)
+    sy = S.Sym(fx, opaque=lambda q: q in (remap_path, prim_path), inline_mut=True)
     try:
         res = sy.eval_body(b)
     except S.Undecidable as e:
